@@ -11,10 +11,11 @@ def run(ctx):
     model_check(ctx, SPEC, "MC_Checkpointer", "MC_Checkpointer.cfg" if ctx.quick() else "MC_Checkpointer_thorough.cfg", timeout=3000)
     ctx.cov["exhaustive"] = True
     behs = behaviours(ctx, SPEC, "MC_Checkpointer", "Beh_Checkpointer.cfg")            # all behaviours of a small instance
-    behs += behaviours(ctx, SPEC, "MC_Checkpointer", "Sim_Checkpointer.cfg", num=300 if ctx.quick() else 3000, depth=14)
+    sim = behaviours(ctx, SPEC, "MC_Checkpointer", "Sim_Checkpointer.cfg", num=20 if ctx.quick() else 200, depth=14)
+    behs += sim[:2000 if ctx.quick() else 30000]
     replay_and_validate(ctx, behs)
     system_level(ctx)
-    ctx.cov["rule"] = ("behaviours = every action sequence of length 4 over 4 tokens x thresholds {0,100} plus seeded TLC simulations of length 12 over "
+    ctx.cov["rule"] = ("behaviours = every action sequence of length 4 over 3 tokens (all three token forms) x thresholds {0,100} plus seeded TLC simulations of length 12 over "
                        "all emitted-form tokens of 0..2; non-trivial = contains a Tick that returned a checkpoint")
     ctx.assumptions += ["tokens enter only through SequenceID.Before / equality: rank compression is property-preserving",
                         "NoRegress is required only when the environment lists changes in feed order (logged per behaviour)"]
